@@ -53,18 +53,6 @@ Theorem C19_no_temp_left : forall v cfg p, wf cfg = true ->
 Proof. intros v cfg p _. exact (no_temp_left v cfg p). Qed.
 Print Assumptions C19_no_temp_left.
 
-(* ---- the tree under test contains the four repairs, so 2 and 3 hold of it.  These two obligations
-   fail to check on a tree without the repairs (props/C19.py then reports the concrete fault plans). *)
-Theorem C19_tree_atomic_under_faults : forall cfg p, wf cfg = true -> errno_only p ->
-  Forall (old_or_new tree_variant cfg) (states cfg (sw_run tree_variant cfg p)).
-Proof. intros cfg p H He. apply (C19_atomic_under_faults tree_variant cfg p H); [reflexivity|reflexivity|exact He]. Qed.
-Print Assumptions C19_tree_atomic_under_faults.
-
-Theorem C19_tree_no_temp_left : forall cfg p, wf cfg = true ->
-  unlinks_ok (sw_run tree_variant cfg p) = true -> temp_left (final_fs (sw_run tree_variant cfg p)) = false.
-Proof. intros cfg p H. apply (C19_no_temp_left tree_variant cfg p H); reflexivity. Qed.
-Print Assumptions C19_tree_no_temp_left.
-
 (* ---- refutations: the pinned code (variant [unfixed]) and partially repaired variants *)
 Definition b_old3 : content := [79; 76; 68]%N.                                    (* "OLD" *)
 Definition b_old12 : content := (b_old3 ++ b_old3 ++ b_old3 ++ b_old3)%list.
@@ -144,3 +132,16 @@ Example C19_nonvacuous :
   target_content (final_fs o2) = Some b_old12 /\
   wf cfg_two_blocks = true /\ wf cfg_short_body = true.
 Proof. vm_compute. repeat split; reflexivity. Qed.
+
+(* ---- LAST (so that everything above is still checked on an unrepaired tree): the tree under test
+   contains the four repairs, so 2 and 3 hold of it.  These two obligations fail to check on a tree
+   without the repairs (props/C19.py then reports the concrete fault plans). *)
+Theorem C19_tree_atomic_under_faults : forall cfg p, wf cfg = true -> errno_only p ->
+  Forall (old_or_new tree_variant cfg) (states cfg (sw_run tree_variant cfg p)).
+Proof. intros cfg p H He. apply (C19_atomic_under_faults tree_variant cfg p H); [reflexivity|reflexivity|exact He]. Qed.
+Print Assumptions C19_tree_atomic_under_faults.
+
+Theorem C19_tree_no_temp_left : forall cfg p, wf cfg = true ->
+  unlinks_ok (sw_run tree_variant cfg p) = true -> temp_left (final_fs (sw_run tree_variant cfg p)) = false.
+Proof. intros cfg p H. apply (C19_no_temp_left tree_variant cfg p H); reflexivity. Qed.
+Print Assumptions C19_tree_no_temp_left.
